@@ -19,5 +19,23 @@ Theorem C02_restore_keeps_signed : forall c s, reachable c s -> forall p,
     commit_of c (c_owner k) (c_h k) (logA_of p x') (logB_of p x') (c_nA k) (c_nB k) = Some k.
 Proof. exact reach_restore_keeps. Qed.
 
+(* the commitment a restarted node would broadcast (lTail) is the one it moved
+   to when it revoked, never an older one: a successful ORevoke raises the
+   height of lTail by exactly 1, no step ever lowers it, restore keeps it *)
+Theorem C02_revoke_advances_tail : forall c s p, reachable c s ->
+  fst (step c s (ORevoke p)) = Ok ->
+  c_h (lTail (get (snd (step c s (ORevoke p))) p)) = (c_h (lTail (get s p)) + 1)%Z.
+Proof. exact reach_revoke_advances. Qed.
+
+Theorem C02_tail_height_monotone : forall c s o p, reachable c s ->
+  (c_h (lTail (get s p)) <= c_h (lTail (get (snd (step c s o)) p)))%Z.
+Proof. exact reach_tail_height_monotone. Qed.
+
+Theorem C02_restore_keeps_tail : forall p x, lTail (restore p x) = lTail x.
+Proof. exact restore_keeps_tail. Qed.
+
 Print Assumptions C02_restore_idempotent.
+Print Assumptions C02_revoke_advances_tail.
+Print Assumptions C02_tail_height_monotone.
+Print Assumptions C02_restore_keeps_tail.
 Print Assumptions C02_restore_keeps_signed.
